@@ -366,15 +366,7 @@ theorem emit_shape (fx : Bool) : ∀ f : FieldDecl, dictOrNone (emit fx f) = tru
   | .struct c fields defaults => by
     simp only [emit]
     split
-    · apply retype_shape
-      unfold structShape
-      split
-      · cases h : emitP fx fields with
-        | nil => rfl
-        | cons p ps =>
-          obtain ⟨n, s⟩ := p
-          exact emitP_shape fx fields (n, s) (by rw [h]; simp)
-      · rfl
+    · rw [retype_classObj]; rfl
     · rfl
   | .anyOf fs => by
     simp only [emit]
@@ -887,21 +879,16 @@ theorem admits_field (O : Oracles) (S : String → String → Bool)
   | .struct c fields defaults, n, v, hf, hrf, hd, _, hr => by
     intro j hj
     simp only [fragF, and_true_iff'] at hf
-    obtain ⟨⟨⟨hncol, hnd⟩, hdef⟩, hfp⟩ := hf
+    obtain ⟨⟨hnd, hdef⟩, hfp⟩ := hf
     have hdef' : defaults = [] := by simpa using hdef
     subst hdef'
     simp only [RefsFaithful] at hrf
     simp only [refDepth] at hd
-    have hshape : structShape c [] (emitP true fields) = classObj c [] (emitP true fields) := by
-      unfold structShape
-      rw [emitP_names]
-      simp only [Bool.not_eq_true'] at hncol
-      simp [hncol]
     simp only [emit]
     cases hin : c.inline with
     | true =>
       simp only [hin, if_true] at hd ⊢
-      rw [hshape, retype_classObj]
+      rw [retype_classObj]
       exact adm_struct_core O _ S c fields v j hnd
         (fun name f hm x hcx hrx => admits_fields O S hS D fields n hfp hrf.2 hd name f hm x hcx hrx) hr hj
     | false =>
@@ -913,7 +900,7 @@ theorem admits_field (O : Oracles) (S : String → String → Bool)
         have hlk : lookup ("#/definitions/" ++ c.name) D = some (classObj c [] (emitP true fields)) := by
           rcases hrf.1 with h | h
           · simp [hin] at h
-          · rw [h, hshape]
+          · rw [h]
         simp only [resolver, hlk]
         exact adm_struct_core O _ S c fields v j hnd
           (fun name f hm x hcx hrx =>
@@ -1057,7 +1044,7 @@ theorem admits_class (O : Oracles) (S : String → String → Bool)
   cases cls with
   | struct c fields defaults =>
     simp only [inSchemaFragment, fragF, and_true_iff'] at hfrag
-    obtain ⟨hni, ⟨⟨⟨hncol, hnd⟩, hdef⟩, hfp⟩⟩ := hfrag
+    obtain ⟨⟨hni, hncol⟩, ⟨⟨hnd, hdef⟩, hfp⟩⟩ := hfrag
     have hdef' : defaults = [] := by simpa using hdef
     subst hdef'
     have hin : c.inline = false := by simpa using hni
